@@ -210,6 +210,15 @@ def build_corpus(rng, tier, scale=1):
                 add(asm.assemble(prog), "assembled", f"{m}.{n}/{shape}", named=[m])
             except Exception as e:  # an assembler limitation must not silently thin the corpus
                 raise RuntimeError(f"cannot assemble {m}.{n}/{shape}: {e}")
+    # codec names: `_codecs.encode(text, NAME)` is how protocols 0-2 spell bytes; NAME is input data and a
+    # codec lookup by it would import encodings.<NAME> / call registered search functions (seeded C01 r2)
+    for codec in ("idna", "punycode", "rot13", "uu", "cp037", "verif_canary_codec"):
+        for fn in ("encode", "decode"):
+            add(asm.assemble([("GLOBAL", ("_codecs", fn)), ("UNICODE", "abc"), ("UNICODE", codec), "TUPLE2",
+                              "REDUCE", "STOP"]), "assembled", f"_codecs.{fn}/{codec}", named=["_codecs"])
+            add(asm.assemble([("PROTO", 2), ("GLOBAL", ("_codecs", fn)), ("BINUNICODE", "abc"),
+                              ("BINUNICODE", codec), "TUPLE2", "REDUCE", ("BINPUT", 0), "STOP"]),
+                "assembled", f"_codecs.{fn}/{codec}/p2", named=["_codecs"])
     base = list(cases)
     # stacked files
     for _ in range(20 * scale):
@@ -294,6 +303,8 @@ def is_stdlib(mod):
 def named_by_input(mod, data):
     parts = mod.split(".")
     cands = {mod, parts[0]}
+    if parts[0] == "encodings" and len(parts) > 1:
+        cands.add(parts[-1])        # a codec NAME in the input selects the module encodings.<name>
     return any(c.encode() in data for c in cands if c)
 
 
